@@ -313,7 +313,14 @@ def run_source(case, rng, cls, faces, meta, g, m):
         v1 = np.asarray(pf.constantSourceTerm(pf.CellVariable(m, gamma * t_)))
         v2 = np.asarray(pf.constantSourceTerm(pf.CellVariable(m, gamma * (1.0 - t_))))
         ex2 = (gamma * t_ + gamma * (1.0 - t_)) / beta
-        tl = gen.vary_terms(rng, [pf.linearSourceTerm(pf.CellVariable(m, beta.copy())), v1, v2], p=0.5)
+        # the coefficient variables live on in the caller's model and are refreshed for the next sweep after the terms were built
+        bv_, gv_ = pf.CellVariable(m, beta.copy()), pf.CellVariable(m, gamma * t_)
+        lin_, v1 = pf.linearSourceTerm(bv_), pf.constantSourceTerm(gv_)
+        bv_.value = beta * 3.0 + 1.0
+        gv_.value[...] = -gamma
+        bv_.apply_BCs()
+        cov['source_coefficients_refreshed_after_build'] = 1
+        tl = gen.vary_terms(rng, [lin_, v1, v2], p=0.5)
         tl = [tl[i_] for i_ in rng.permutation(3)]
         cont = type(tl[[i_ for i_, t in enumerate(tl) if getattr(t, 'ndim', 1) == 2][0]]).__name__
         for rnd_ in range(3):
